@@ -18,9 +18,9 @@ suite=FAIL; go test -vet=off -count=1 ./... >/tmp/suite.$$ 2>&1 && suite=ok
 for f in $demos; do mv /tmp/demo_aside.$$/$f $f; done
 pkgs=$(for f in $demos; do echo ./$(dirname $f); done | sort -u)
 with=PASS; go test -vet=off -count=1 -run 'Seed|seed|Demo' $pkgs >/tmp/with.$$ 2>&1 || with=fail
-git stash push -q -- $(git diff --name-only) 
+git apply -R $d/patch.diff   # (not git stash: the stash is shared between worktrees and races with running agents)
 without=FAIL; go test -vet=off -count=1 -run 'Seed|seed|Demo' $pkgs >/tmp/without.$$ 2>&1 && without=pass
-git stash pop -q
+git apply $d/patch.diff
 echo "build=$build suite=$suite demo_with_change=$with demo_without_change=$without"
 for f in $demos; do cp $f $d/; done
 cp $out/NOTES.md $d/NOTES.md 2>/dev/null
